@@ -152,7 +152,11 @@ def handle (j : Json) : Json :=
   let rootSrc := if isData then "" else storeKey root
   let b := build fs rootData rootCx rootSrc rootJ
   let w := b.world
-  let res := load w 400 0
+  -- fuel: the bound of `load_terminates` ((#texts + 1) · (R + 1)); rank of an object = R − depth of its pointer
+  -- (the children of a value lie strictly deeper), R = the deepest pointer
+  let depthMax := b.nodes.foldl (fun m n => max m n.ptr.length) 0
+  let fuel := (b.texts.length + 1) * (depthMax + 1)
+  let res := load w fuel 0
   let topIds : List Obj := (docChildren rootJ).filterMap (fun ch => findObj b.nodes rootCx rootSrc ch.toks ch.kind false)
   let (outcome, refs, nback, foreign, nnil, nskip, nempty) := match res with
     | .ok s => ("ok", reach b s 4000 topIds [] [], s.nback, s.foreign, s.nnil, s.nskip, s.nempty)
@@ -232,6 +236,7 @@ def handle (j : Json) : Json :=
     ("model", jobj [("outcome", Json.str outcome), ("refs", groupRefs refs)]),
     ("spec", jobj [("ok", Json.bool specOK), ("refs", Json.mkObj (specRefs.map (fun (r, v) => (r, v.getD Json.null))))]),
     ("excl", jstrs excl),
+    ("fuel", Json.num (JsonNumber.fromNat fuel)),
     ("dbg", jstrs (disagree.map (fun n => s!"{n.ref.getD ""} @{n.src} go={goStepKey n} spec={specStepKey n}"))),
     ("branches", jstrs branches)]
 
